@@ -378,7 +378,71 @@ def C11(tier):
     return jobs, floors, rule, opts
 
 
-PROPS = {"C01": C01, "C02": C02, "C03": C03, "C04": C04, "C05": C05, "C06": C06, "C07": C07, "C08": C08, "C09": C09, "C10": C10, "C11": C11, "C19": C19}
+def C15(tier):
+    m = 1 if tier == "quick" else 12
+    jobs = []
+    for i in range(5):
+        jobs.append(hj("h_source", 12 * m, first=i * 12 * m, mode="data"))
+    jobs += [hj("h_source", 6 * m, first=2000, mode="data", ncpu=1, scale=40), hj("h_source", 9 * m, first=2100, mode="data", ncpu=2, scale=60),
+             hj("h_source", 9 * m, first=2200, mode="data", ncpu=4)]
+    jobs += [hj("h_source", 6 * m, first=3000, mode="data", flavor="asan", scale=40, timeout=600)]
+    # handler re-entrancy is also monitored for timer / fd / signal sources in the cancellation and timer harnesses
+    jobs += [hj("h_source", 4 * m, first=4000, mode="cancel"), hj("h_timer", 3 * m, first=4100)]
+    if tier == "thorough":
+        for t in jobs:
+            t.timeout = 1800
+    floors = {
+        "data_merges": 500000 * (1 if tier == "quick" else 8),
+        "data_handler_invocations": 10000,
+        "DATA_ADD": 20, "DATA_OR": 20, "DATA_REPLACE": 20,
+        "or_rounds_checked": 2000,
+        "site:_dispatch_source_latch_and_call:2": 10000,   # latch of the pending data (xchg)
+        "site:dispatch_source_merge_data:4": 100000,
+    }
+    rule = ("one case = one trial on one DATA_ADD / DATA_OR / DATA_REPLACE source targeting a serial, concurrent, global or chained "
+            "queue, 1-16 merging threads with unique values (bit-disjoint masks in rounds for OR), handler bodies of 0-80 us, merges "
+            "from inside the handler, merges before activation, a suspend/resume controller, under a perturbation profile; oracle: "
+            "sum delivered == sum merged (ADD), every round's masks delivered and no foreign bit (OR), every delivered value was "
+            "merged and the final merge is the last delivered (REPLACE), no invocation with 0, in-handler flag never found set, "
+            "merged values delivered after resume (stuck witness otherwise); non-trivial = coalescing happened (fewer invocations "
+            "than merges)")
+    return jobs, floors, rule
+
+
+def C16(tier):
+    m = 1 if tier == "quick" else 12
+    jobs = []
+    for i in range(6):
+        jobs.append(hj("h_source", 5 * m, first=i * 5 * m, mode="cancel"))
+    jobs += [hj("h_source", 3 * m, first=2000, mode="cancel", ncpu=1, scale=40), hj("h_source", 4 * m, first=2100, mode="cancel", ncpu=2, scale=60),
+             hj("h_source", 4 * m, first=2200, mode="cancel", ncpu=4)]
+    jobs += [hj("h_source", 4 * m, first=3000, mode="cancel", flavor="asan", scale=40, timeout=600),
+             hj("h_source", 3 * m, first=3100, mode="cancel", flavor="asan", scale=40, ncpu=2, timeout=600)]
+    jobs += [hj("h_timer", 3 * m, first=4100)]
+    if tier == "thorough":
+        jobs += [hj("h_source", 20 * m, first=9000, mode="cancel", flavor="dbg", timeout=1800)]
+        for t in jobs:
+            t.timeout = 1800
+    floors = {"cancel_cases": 5000 * (1 if tier == "quick" else 8), "epoll_unregistration_verified": 2000,
+              "foreign_cancel_one_committed_invocation": 1}
+    for p in ["before-activate", "right-after-activate", "from-own-handler", "from-item-on-serial-target", "foreign-while-events-flow",
+              "while-suspended", "double-cancel", "cancel_and_wait"]:
+        floors["cancel_at_" + p] = 200
+    for k in ["timer", "data_add", "read(pipe)", "read(socketpair)", "write(pipe)", "signal"]:
+        floors["cancel_kind_" + k] = 300
+    rule = ("one case = one source (timer, DATA_ADD, read on pipe / socketpair, write on pipe, signal) with events flowing from a "
+            "feeder thread, cancelled at one life-cycle point (before activation, right after activation, from its own handler, from "
+            "an item on its serial target queue, from a foreign thread while events flow, while suspended, twice concurrently, with "
+            "dispatch_source_cancel_and_wait), 1-4 driver threads in parallel (descriptor numbers are reused at once), under a "
+            "perturbation profile; oracle over stamps: no event handler start after the cancel returned (handler / target-queue "
+            "origin), at most one (foreign origin), cancel handler exactly once, on the target queue (queue-specific marker), after "
+            "the last event handler invocation returned, never followed by an event handler, descriptor absent from the library's "
+            "epoll set (/proc/self/fdinfo) when the cancel handler runs, cancel_and_wait returns with nothing running and nothing "
+            "started afterwards; trial line = batch of cases")
+    return jobs, floors, rule
+
+
+PROPS = {"C01": C01, "C02": C02, "C03": C03, "C04": C04, "C05": C05, "C06": C06, "C07": C07, "C08": C08, "C09": C09, "C10": C10, "C11": C11, "C15": C15, "C16": C16, "C19": C19}
 
 
 # specs kept in their own files (vf/p_<ID>.py defines spec(tier))
